@@ -27,7 +27,7 @@ data(const LieGroupBase<_Derived>& lie_group)
 }
 
 template <typename _Derived>
-typename _Derived::Scalar*
+typename LieGroupBase<_Derived>::ScalarPtr
 data(LieGroupBase<_Derived>& lie_group)
 {
   return lie_group.data();
@@ -41,7 +41,7 @@ data(const TangentBase<_Derived>& tangent)
 }
 
 template <typename _Derived>
-typename _Derived::Scalar*
+typename TangentBase<_Derived>::ScalarPtr
 data(TangentBase<_Derived>& tangent)
 {
   return tangent.data();
